@@ -100,6 +100,10 @@ pub struct ShapeSpec {
     pub program: Option<crate::gprog::Program>,
     pub public_lanes: usize,
     pub alu_lanes: usize,
+    /// restrict faults to one part of the proof ("fri" = opening proof, claimed evaluations,
+    /// commitments) and enumerate all fault kinds there
+    #[serde(default)]
+    pub focus: Option<String>,
 }
 
 pub fn draw_shape<R: RecUni>(rng: &mut Rng, tier: Tier, force_kind: Option<&str>) -> ShapeSpec {
@@ -125,7 +129,12 @@ pub fn draw_shape<R: RecUni>(rng: &mut Rng, tier: Tier, force_kind: Option<&str>
     } else {
         None
     };
-    ShapeSpec { universe: R::NAME.to_string(), kind, fri, log_n, program, public_lanes: *rng.pick(&[1, 2, 4]), alu_lanes: *rng.pick(&[1, 2, 4]) }
+    ShapeSpec { universe: R::NAME.to_string(), kind, fri, log_n, program, public_lanes: *rng.pick(&[1, 2, 4]), alu_lanes: *rng.pick(&[1, 2, 4]), focus: None }
+}
+
+/// First few alphabetic words of a message: a stable error-class slug for finding keys.
+fn slug(msg: &str) -> String {
+    msg.split(|c: char| !c.is_alphabetic()).filter(|w| w.len() > 1).take(8).collect::<Vec<_>>().join("_")
 }
 
 fn verdict_pair(native: &Result<(), String>, c: &CircuitVerdict) -> String {
@@ -164,7 +173,7 @@ pub fn run_shape<R: RecUni>(
         if honest_native.is_ok() != honest_circuit.accepts() {
             if only.is_none() {
                 out.violate(
-                    format!("uni:honest:{}", verdict_pair(&honest_native, &honest_circuit)),
+                    format!("uni:honest:{}:{}", verdict_pair(&honest_native, &honest_circuit), slug(honest_circuit.msg())),
                     format!("honest proof: {} ({}; {})", verdict_pair(&honest_native, &honest_circuit), honest_native.clone().err().unwrap_or_default(), honest_circuit.msg().chars().take(200).collect::<String>()),
                     detail("honest", "", Fault::Xor1),
                 );
@@ -203,10 +212,21 @@ pub fn run_shape<R: RecUni>(
             let meta = tree::is_meta_leaf(path);
             let pstr = tree::path_str(path);
             let class = tree::path_class(path);
+            let fri_focus = spec.focus.as_deref() == Some("fri");
+            if fri_focus && !(class.contains("opening_proof") || class.contains("opened_values") || class.contains("commitments")) {
+                continue;
+            }
             for f in FAULTS {
                 for mode in ["fixed", "rebuild"] {
                     if let Some((m, p, ff)) = only {
                         if m != mode || p != pstr || ff != f {
+                            continue;
+                        }
+                    } else if fri_focus {
+                        if mode == "fixed" && meta {
+                            continue;
+                        }
+                        if mode == "rebuild" && !meta && !rng.chance(1, tier.pick(12, 3)) {
                             continue;
                         }
                     } else {
@@ -289,7 +309,7 @@ pub fn run_shape<R: RecUni>(
         if honest_native.is_ok() != honest_circuit.accepts() {
             if only.is_none() {
                 out.violate(
-                    format!("batch:honest:{}", verdict_pair(&honest_native, &honest_circuit)),
+                    format!("batch:honest:{}:{}", verdict_pair(&honest_native, &honest_circuit), slug(honest_circuit.msg())),
                     format!("honest proof: {} ({}; {})", verdict_pair(&honest_native, &honest_circuit), honest_native.clone().err().unwrap_or_default().chars().take(160).collect::<String>(), honest_circuit.msg().chars().take(200).collect::<String>()),
                     detail("honest", "", Fault::Xor1),
                 );
@@ -308,10 +328,21 @@ pub fn run_shape<R: RecUni>(
             let meta = tree::is_meta_leaf(path);
             let pstr = tree::path_str(path);
             let class = tree::path_class(path);
+            let fri_focus = spec.focus.as_deref() == Some("fri");
+            if fri_focus && !(class.contains("opening_proof") || class.contains("opened_values") || class.contains("commitments")) {
+                continue;
+            }
             for f in FAULTS {
                 for mode in ["fixed", "rebuild"] {
                     if let Some((m, p, ff)) = only {
                         if m != mode || p != pstr || ff != f {
+                            continue;
+                        }
+                    } else if fri_focus {
+                        if mode == "fixed" && meta {
+                            continue;
+                        }
+                        if mode == "rebuild" && !meta && !rng.chance(1, tier.pick(12, 3)) {
                             continue;
                         }
                     } else {
